@@ -188,6 +188,12 @@ class WallHang(KeyboardInterrupt):
     KeyboardInterrupt because asyncio re-raises only that (and SystemExit) out of callbacks / tasks."""
 
 
+class CaseBudget(KeyboardInterrupt):
+    """One case used more wall time than any case on a healthy tree comes near (VERIF_CASE_WALL_S, default 90 s): the case is
+    abandoned as INCONCLUSIVE - never a violation. (Typical cause: a change that makes the library poll in small virtual steps
+    through hours of virtual time.)"""
+
+
 class _Watchdog:
     """Raise WallHang in the main thread if it sits on one line at one virtual instant on two successive alarms (2 s apart) after
     `first` seconds, or if virtual time stands still for ~2 min of wall time. A slow machine alone never trips it."""
@@ -202,9 +208,16 @@ class _Watchdog:
 
         if threading.current_thread() is not threading.main_thread() or signal.getsignal(signal.SIGALRM) not in (signal.SIG_DFL, signal.SIG_IGN, None):
             return self  # someone else owns the alarm (e.g. the thin rig's own watchdog): leave it alone
+        import os
+        import time as _time
+
         st: dict = {"prev": None, "n": 0, "vt0": None}
+        t_start = _time.monotonic()
+        limit = float(os.environ.get("VERIF_CASE_WALL_S", "90"))
 
         def on_alarm(signum, frame):  # type: ignore[no-untyped-def]
+            if _time.monotonic() - t_start > limit:
+                raise CaseBudget()
             lp = STATE.loop
             vt = lp.time() if lp is not None else None
             snap = (frame.f_code.co_filename, frame.f_lineno, vt) if frame is not None else None
